@@ -143,7 +143,22 @@ def withoutFresh (ob : String) : String :=
   | [a, b, c, _] => a ++ " | " ++ b ++ " | " ++ c
   | _ => ob
 
-def runCase (tmplS opsS extS obsS : String) : Result := Id.run do
+/-- Every column the template declares as a cell still carries its declared format and raw type in a row the
+    template made, whatever was stored, imported or REFUSED since (no operation of these histories hands a
+    `jsonline.Value` to a row): a refused import or a failed unmarshal leaves declarations alone. -/
+def declLost (t : Tmpl) (rowS : String) : Option String :=
+  match Val.parse? rowS with
+  | some (.row ms) =>
+    t.findSome? fun kc =>
+      match kc.2 with
+      | .cell _ f ty =>
+        (match OMap.lookup ms.toList kc.1 with
+         | some (.cell _ f' ty') => if f' == f && ty' == ty then none else some s!"declared-column-lost-its-declaration:{hexOf kc.1}"
+         | _ => none)
+      | _ => none
+  | _ => none
+
+def runCase (tmplS opsS extS obsS : String) (prop : String := "C15") : Result := Id.run do
   let env : Env := ⟨drvTables, parseExt extS⟩
   match tmplOf env tmplS with
   | none => return ⟨"B", "cannot parse template"⟩
@@ -183,6 +198,14 @@ def runCase (tmplS opsS extS obsS : String) : Result := Id.run do
             for idx in List.range prs.length do
               if some idx != touched && crs[idx]? != prs[idx]? then p := some s!"other-row-changed"
         | _, _ => pure ()
+        -- declarations survive everything these histories do
+        match cur with
+        | some (_, crs) =>
+          for rs in crs do
+            match declLost t rs with
+            | some c => if p.isNone then p := some c
+            | none => pure ()
+        | none => pure ()
         -- a row handed out by a long-lived importer is what its line gives on its own
         match freshOf ob, cur with
         | some f, some (_, crs) =>
@@ -195,7 +218,7 @@ def runCase (tmplS opsS extS obsS : String) : Result := Id.run do
         if p.isSome then
           let tag := (if d || firstD.isSome then "D" else "") ++ "P"
           return ⟨tag, s!"step {stepNo} [{os}] impl [{ob}] model [{ms}]" ++
-            (match p with | some c => s!" violates C15: key={c}" | none => "")⟩
+            (match p with | some c => s!" violates {prop}: key={c}" | none => "")⟩
         if d && firstD.isNone then
           firstD := some s!"step {stepNo} [{os}] impl [{ob}] model [{ms}]"
         prev := cur
